@@ -24,6 +24,11 @@ config merge <n> <opt>* F <f> (<k> (<key> <val>)*)* C <c> <raw>*
         val = s:<str> | l:<str>,<str>…  (l: alone = empty list)
         → ok argv <raw>* | warn <key>* | eff <eff>*      or  error:<e> | warn <key>*
 ```
+config section <str>                        → ok <str>* | unmodelled             (parse_toml_section_name)
+config tomlparse <n> (<k> <str>*)* <node>   → ok (<key> <val>)* | AttributeError | unmodelled   (TomlConfigParser.parse after toml.load)
+        node = T <n> (<key> <node>)* | S <str> | I <int> | B <0|1> | L <n> <scalar>* | LX <n> | O
+config composite <name|-> <0|1> <0|1> <kinds> → toml | ini | error  | tried <kinds>          (CompositeConfigParser.parse)
+config makehtml <g> <t> <m> / template <explicit|-> <base|-> / verbosity <nv> <nq> / sidebar <e> <t>   (Options.from_namespace …)
 All `<str>` are `u:` code-point lists (Proto). -/
 namespace Config
 
@@ -171,7 +176,115 @@ def warningsUntilError (table : List Opt) (cli : List Arg) : List (List (Str × 
        | .ok args => warningsUntilError table args more
        | .error _ => [])
 
+/-- `T <n> (<key> <node>)* | S <str> | I <int> | B <0|1> | L <n> <scalar>* | LX <n> | O` -/
+def parseInt (tok : String) : Option Int :=
+  if tok.startsWith "-" then ((tok.drop 1).toString.toNat?).map fun n => - (Int.ofNat n)
+  else tok.toNat?.map Int.ofNat
+
+def takeScalars : Nat → List String → Option (List TomlScalar × List String)
+  | 0, toks => some ([], toks)
+  | n + 1, t :: toks => do
+    let s ← parseScalar t
+    let (l, rest) ← takeScalars n toks
+    some (s :: l, rest)
+  | _, [] => none
+
+def parseNode : Nat → List String → Option (TNode × List String)
+  | 0, _ => none
+  | fuel + 1, toks =>
+    match toks with
+    | "T" :: n :: rest => do
+      let k ← n.toNat?
+      let rec kvs (f : Nat) (m : Nat) (ts : List String) : Option (List (Str × TNode) × List String) :=
+        match f, m, ts with
+        | _, 0, ts => some ([], ts)
+        | 0, _, _ => none
+        | f + 1, m + 1, key :: ts' => do
+          let kk ← decodeStr key
+          let (node, ts'') ← parseNode fuel ts'
+          let (more, ts''') ← kvs f m ts''
+          some ((kk, node) :: more, ts''')
+        | _, _, [] => none
+      let (l, rest') ← kvs (rest.length + 1) k rest
+      some (.table l, rest')
+    | "S" :: s :: rest => (decodeStr s).map fun x => (.str x, rest)
+    | "I" :: i :: rest => (parseInt i).map fun x => (.int x, rest)
+    | "B" :: b :: rest => (parseBool01 b).map fun x => (.bool x, rest)
+    | "L" :: n :: rest => do
+      let k ← n.toNat?
+      let (l, rest') ← takeScalars k rest
+      some (.list l true, rest')
+    | "LX" :: n :: rest => do
+      let k ← n.toNat?
+      some (.list (List.replicate k .other) false, rest)
+    | "O" :: rest => some (.other, rest)
+    | _ => none
+
+def takePaths : Nat → List String → Option (List (List Str) × List String)
+  | 0, toks => some ([], toks)
+  | n + 1, k :: toks => do
+    let m ← k.toNat?
+    let (p, rest) ← takeStrs m toks
+    let (ps, rest') ← takePaths n rest
+    some (p :: ps, rest')
+  | _, [] => none
+
+def parseKinds (s : String) : Option (List ParserKind) :=
+  if s == "-" then some [] else
+  s.toList.mapM fun c => if c = 't' then some .toml else if c = 'i' then some .ini else none
+
+def handle7 (args : List String) : Option String :=
+  match args with
+  | ["section", s] =>
+    (decodeStr s).map fun name =>
+      match parseSectionName name with
+      | some parts => sect "ok" (parts.map encodeStr)
+      | none => "unmodelled"
+  | "tomlparse" :: n :: toks => do
+    let k ← n.toNat?
+    let (paths, rest) ← takePaths k toks
+    let (doc, rest') ← parseNode (rest.length + 1) rest
+    if !rest'.isEmpty then none else
+    match doc with
+    | .table kvs =>
+      some (match tomlParse paths kvs with
+        | .ok items => sect "ok" (items.map fun kv => encodeStr kv.1 ++ " " ++ showFileVal kv.2)
+        | .attributeError => "AttributeError"
+        | .unmodelled => "unmodelled")
+    | _ => none
+  | ["composite", name, t, i, kinds] => do
+    let nm ← if name == "-" then some none else (decodeStr name).map some
+    let tb ← parseBool01 t
+    let ib ← parseBool01 i
+    let ks ← parseKinds kinds
+    let outcome : ParserKind → Option String := fun p =>
+      match p with
+      | .toml => if tb then some "toml" else none
+      | .ini => if ib then some "ini" else none
+    let order := compositeOrder nm ks
+    let failing := order.takeWhile fun p => (outcome p).isNone
+    let tried := order.take (failing.length + 1)
+    some ((compositeParse outcome nm ks).getD "error" ++ " | " ++
+      sect "tried" (if tried.isEmpty then [] else [String.ofList (tried.map fun p => if p = .toml then 't' else 'i')]))
+  | ["makehtml", g, t, m] => do
+    let a ← parseBool01 g; let b ← parseBool01 t; let c ← parseBool01 m
+    some (if makeHtml a b c then "True" else "False")
+  | ["template", e, b] => do
+    let ex ← if e == "-" then some none else (decodeStr e).map some
+    let ba ← if b == "-" then some none else (decodeStr b).map some
+    some (encodeStr (sourceTemplate ex ba))
+  | ["verbosity", v, q] => do
+    let a ← v.toNat?; let b ← q.toNat?
+    some (toString (verbosity a b))
+  | ["sidebar", e, t] => do
+    let a ← parseInt e; let b ← parseInt t
+    some (if sidebarOk a b then "ok" else "error")
+  | _ => none
+
 def handle (args : List String) : String :=
+  match handle7 args with
+  | some r => r
+  | none =>
   match args with
   | ["isq", t, s] =>
     match decodeStr s with
